@@ -6,7 +6,7 @@ the database (measurement present / absent / none) and through handles, after
 every mutating op of seeded histories, in 4 configurations (index-served and
 scan-served), with values None / '' and strings containing line breaks.
 """
-from .. import contracts
+from .. import gen, contracts
 from ..common import Scratch, rng_for
 from ..core import Violation
 from ..histories import HistoryRunner, Profile, describe, replay_of, replay_ops
@@ -62,6 +62,8 @@ def profile(h=0):
         p.meas = ["m0", "m1", "_default", "m", "m00", "M0", "m0 ", "a", "a/b", "None", "k", "x", "1", "measurement", "m1x"]
         p.extra_tag_keys = [f"key{i}" for i in range(14)]
         p.extra_tag_vals = [f"v{i}" for i in range(25)] + ["12", "1.5", "x" * 300]
+    if h % 20 == 17:  # instants at and around the epoch (timestamp 0.0, negative timestamps) and year 1900
+        p.grid = gen.EPOCH_GRID
     if h % 8 == 5:
         p.max_rows = 45
         p.min_ops, p.max_ops = 4, 10
